@@ -22,7 +22,7 @@ import traceback
 from . import codec, repo
 
 REGISTRY = {}
-NCPU = max(1, min(16, os.cpu_count() or 1))
+NCPU = max(1, min(int(os.environ.get("VERIF_NCPU", "16")), os.cpu_count() or 1))
 
 
 def check(name):
